@@ -51,6 +51,8 @@ RUNS = {
         {"name": "K4-args-and-read-data", "mode": "k4", "budget": (3000, 60000), "nontrivial": r" c\d+=|^rtyp=117", "keyfn": "k4"},
         {"name": "K4-read-buffer-reuse", "mode": "k13", "budget": (60, 1500), "nontrivial": r"^rtyp=(117|41) ", "keyfn": "k4"},
         {"name": "K7-scenarios", "mode": "k7scen", "budget": (10, 200), "nontrivial": r".", "keyfn": "k7scen"},
+        {"name": "K2-stale-receive-buffers", "mode": "k2", "budget": (1000, 25000), "nontrivial": r"recv\d+=(msg|proto)", "keyfn": "k2"},
+        {"name": "K7-reply-content-under-concurrency", "mode": "k7tags", "budget": (90, 2000), "nontrivial": r"missing=0", "keyfn": "generic"},
     ],
     "C19": [
         {"name": "K8-readdir", "mode": "k19", "budget": (250, 6000), "nontrivial": r"pages=([3-9]|\d\d)", "keyfn": "generic"},
